@@ -99,7 +99,8 @@ def run(tier):
     small = ["fresh", "done", "pendend"]
     devs = ["KeepEnd"] + (["ModAlways", "ModExplicit", "OldStale", "UdaOpen", "DepAny"] if thorough else [])
     for d in devs:
-        task_mc(v, wd, "dev-" + d.lower(), mconsts("core", 2, 1, small, dev={d}), "MutateInv",
+        pri = small + ["recurring"] if d == "DepAny" else small   # needs a non-pending target
+        task_mc(v, wd, "dev-" + d.lower(), mconsts("core", 2, 1, pri, dev={d}), "MutateInv",
                 expect="MutateInv")
 
     # 2. the sequences on the real code
@@ -107,8 +108,8 @@ def run(tier):
     plan = [("full-len1", full1, 1, None),
             ("core-len2-commit", core2, 1 if thorough else 5, None),
             ("core-len3", core3, 10, None if thorough else 5000),
-            ("full-len2", full2, 10, None if thorough else 4000),
-            ("core-len4", core4, 20, 60000)]
+            ("full-len2", full2, 10, 100000 if thorough else 4000),
+            ("core-len4", core4, 20, 40000)]
     for name, sch, every, limit in plan:
         if not sch:
             if name != "core-len4" or thorough:
